@@ -69,6 +69,14 @@ Proof.
   intros Hn r Ha. apply label_is_mode; [|exact Ha]. apply covers_spec. apply reuse_covers. exact Hn.
 Qed.
 
+(** C14 (3): whatever the order of the resampled indices, active particle r carries the cluster of ITS position *)
+Theorem assign_pointwise {U} (predict : U -> nat) pool (d : U) idx r :
+  r < length idx -> nth r (assign predict pool d idx) 0 = predict (nth r (gather pool d idx) d).
+Proof.
+  intro H. unfold assign. rewrite (nth_indep _ 0 (predict d)) by (now rewrite map_length; unfold gather; rewrite map_length).
+  now rewrite map_nth.
+Qed.
+
 (** number of modes never exceeds K and equals K exactly under coverage *)
 Theorem modes_count K labels : length (occurring K labels) <= K.
 Proof.
